@@ -17,6 +17,7 @@ Semantics encoded
   * invalid anywhere in the hierarchy => the whole run is invalid and nothing is executed;
   * processing order: depth first, the sub-suites of a suite (in listing order) before the suite's own cases.
   * a case file listed twice (in one suite or in two) is two listed cases.
+  * a QUOTED entry is a plain file name even if it holds `*`, `?`, `[` or spaces (the program's own rule).
 """
 import posixpath
 import re
@@ -66,7 +67,19 @@ def norm(p: str) -> str:
     return '' if p == '.' else p
 
 
+def unquoted(s: str):
+    """The file name denoted by a QUOTED entry ('...' or "..."), or None if the entry is not quoted.  The manual
+    is silent on quoting in suite files; the program states its own rule (a quoted token is a plain file name, never
+    a pattern - it is the only way to list a file whose name contains a space, `*`, `?` or `[`), and that rule is
+    what is demanded (only for quoted strings without quote or backslash characters inside)."""
+    if len(s) >= 2 and s[0] in '\'"' and s[-1] == s[0] and s[0] not in s[1:-1] and '\\' not in s:
+        return s[1:-1]
+    return None
+
+
 def is_glob(s: str) -> bool:
+    if unquoted(s) is not None:
+        return False
     return any(c in s for c in '*?[')
 
 
@@ -228,6 +241,8 @@ def read_hierarchy(vfs: VFS, suites: dict, root: str) -> Node:
 def resolve_entry(vfs, d, entry, suite_path):
     if is_glob(entry):
         return glob(vfs, d, entry)
+    if unquoted(entry) is not None:
+        entry = unquoted(entry)
     p = norm(posixpath.join(d, entry))
     if p.startswith('..'):
         raise ModelAmbiguity('entry leaves the tree: %r' % entry)
